@@ -27,7 +27,8 @@ type ArgVal struct {
 	Bool  bool    `json:"bool,omitempty"`
 	Bytes []int64 `json:"bytes,omitempty"`
 	IsNil bool    `json:"nil,omitempty"`
-	Kind  string  `json:"kind"` // int bool bytes string
+	Kind  string  `json:"kind"` // int bool bytes string struct
+	Fields []ArgVal `json:"fields,omitempty"`
 }
 
 type ReplayCase struct {
@@ -58,8 +59,24 @@ func paramKind(t types.Type) string {
 		if b, ok := u.Elem().Underlying().(*types.Basic); ok && b.Kind() == types.Uint8 {
 			return "bytes"
 		}
+	case *types.Struct:
+		// structs of scalars; pointer fields are left nil
+		for i := 0; i < u.NumFields(); i++ {
+			ft := u.Field(i).Type()
+			if _, isPtr := ft.Underlying().(*types.Pointer); isPtr {
+				continue
+			}
+			if k := paramKind(ft); k != "int" && k != "bool" && k != "struct" {
+				return ""
+			}
+		}
+		return "struct"
 	}
 	return ""
+}
+
+func typeExpr(t types.Type) string {
+	return types.TypeString(t, func(p *types.Package) string { return "" })
 }
 
 // replayable: plain function (or value-receiver-free) over scalars, []byte and strings.
@@ -91,9 +108,22 @@ func (x *Exec) modelCase(o *Obligation, depth int, timeout time.Duration) (*Repl
 		names = append(names, n)
 	}
 	sort.Strings(names)
+	var addLeaves func(sv SV)
+	addLeaves = func(sv SV) {
+		switch sv.K {
+		case KInt, KBool:
+			vals = append(vals, sv.T)
+		case KStruct:
+			for _, f := range sv.Fields {
+				addLeaves(f)
+			}
+		}
+	}
 	for _, n := range names {
 		sv := x.params[n]
 		switch sv.K {
+		case KStruct:
+			addLeaves(sv)
 		case KInt, KBool:
 			vals = append(vals, sv.T)
 		case KSeq:
@@ -135,10 +165,35 @@ func (x *Exec) modelCase(o *Obligation, depth int, timeout time.Duration) (*Repl
 		}
 		rc := &ReplayCase{}
 		ok := true
+		var structVal func(name string, t types.Type, sv SV) ArgVal
+		structVal = func(name string, t types.Type, sv SV) ArgVal {
+			av := ArgVal{Name: name, Type: typeExpr(t), Kind: paramKind(t)}
+			switch sv.K {
+			case KInt:
+				v, found := get(sv.T)
+				if !found {
+					ok = false
+				}
+				av.Int = v
+			case KBool:
+				av.Bool = r.Model[normSpace(sv.T.String())] == "true"
+			case KStruct:
+				stt := t.Underlying().(*types.Struct)
+				for i := 0; i < stt.NumFields(); i++ {
+					if _, isPtr := stt.Field(i).Type().Underlying().(*types.Pointer); isPtr {
+						continue
+					}
+					av.Fields = append(av.Fields, structVal(stt.Field(i).Name(), stt.Field(i).Type(), sv.Fields[i]))
+				}
+			}
+			return av
+		}
 		for _, p := range x.fn.Params {
 			sv := x.params[p.Name()]
-			av := ArgVal{Name: p.Name(), Type: p.Type().String(), Kind: paramKind(p.Type())}
+			av := ArgVal{Name: p.Name(), Type: typeExpr(p.Type()), Kind: paramKind(p.Type())}
 			switch sv.K {
+			case KStruct:
+				av = structVal(p.Name(), p.Type(), sv)
 			case KInt:
 				v, found := get(sv.T)
 				if !found {
@@ -262,6 +317,17 @@ func goLiteral(a ArgVal) string {
 		}
 		sb.WriteString("}")
 		return sb.String()
+	case "struct":
+		var sb strings.Builder
+		sb.WriteString(a.Type + "{")
+		for i, f := range a.Fields {
+			if i > 0 {
+				sb.WriteString(", ")
+			}
+			sb.WriteString(f.Name + ": " + goLiteral(f))
+		}
+		sb.WriteString("}")
+		return sb.String()
 	case "string":
 		var sb strings.Builder
 		sb.WriteString("string([]byte{")
@@ -333,7 +399,7 @@ func runOverlayTest(repo, pkgDir, src string, timeout time.Duration) (string, er
 	}
 	ctx, cancel := context.WithTimeout(context.Background(), timeout+30*time.Second)
 	defer cancel()
-	cmd := exec.CommandContext(ctx, "go", "test", "-overlay", ovFile, "-vet=off", "-count=1", "-v",
+	cmd := exec.CommandContext(ctx, "go", "test", "-tags", "verif", "-overlay", ovFile, "-vet=off", "-count=1", "-v",
 		fmt.Sprintf("-timeout=%ds", int(timeout.Seconds())), "-run", "^TestGovcReplay$", ".")
 	cmd.Dir = pkgDir
 	cmd.Env = append(os.Environ(), "GOFLAGS=-mod=mod", "GOPROXY=off", "GOSUMDB=off", "GOTOOLCHAIN=local")
@@ -386,6 +452,12 @@ func argToCV(a ArgVal) CV {
 		return cvBool(a.Bool)
 	case "bytes", "string":
 		return CV{K: "seq", S: append([]int64(nil), a.Bytes...), Nil: a.IsNil && len(a.Bytes) == 0}
+	case "struct":
+		cv := CV{K: "struct", Fields: map[string]CV{}}
+		for _, f := range a.Fields {
+			cv.Fields[f.Name] = argToCV(f)
+		}
+		return cv
 	}
 	return CV{K: "?"}
 }
